@@ -17,6 +17,19 @@ Theorem merge_map : forall t r0 c0 r1 c1 t', merge_cells t r0 c0 r1 c1 = Ok t' -
 Proof. exact merge_map_lemma. Qed.
 Print Assumptions merge_map.
 
+(* the picture at cell level: every cell of the table then reports the merge attributes of the map entry at its
+   position; the cells of the rectangle other than the anchor are value-less placeholder objects; every other cell
+   (the anchor and everything outside) keeps its class, value and position.  With merge_map: the anchor reports the
+   rectangle's size, placeholders report the rectangle, cells outside report what they reported before. *)
+Theorem merge_picture : forall t r0 c0 r1 c1 t', 0 <= r0 -> 0 <= c0 -> merge_cells t r0 c0 r1 c1 = Ok t' ->
+  forall r c x, 0 <= r -> 0 <= c -> get_cell (data t) r c = Some x ->
+  exists x', get_cell (data t') r c = Some x' /\ cmerge x' = attr_of (mget (merges t') r c) /\
+    (if existsb (fun p => (r =? fst p) && (c =? snd p)) (rect_cells r0 c0 r1 c1)
+     then cplace x' = true /\ cval x' = None
+     else cplace x' = cplace x /\ cval x' = cval x /\ crow x' = crow x /\ ccol x' = ccol x).
+Proof. exact merge_picture_lemma. Qed.
+Print Assumptions merge_picture.
+
 (* persistence: origin = col << 16 | row and size = ncols << 16 | nrows read back exactly while row and
    height fit 16 bits; the hypothesis is forced by the packing *)
 Theorem merge_reload : forall r c h w,
